@@ -45,6 +45,7 @@ def plan(tier, seed):
         shards.append({'name': 'random-%d' % i, 'fn': 'shard_random', 'args': {'part': i, 'parts': r}})
     shards.append({'name': 'scores', 'fn': 'shard_scores', 'args': {}})
     shards.append({'name': 'many-distinct-tuples', 'fn': 'shard_many_tuples', 'args': {}})
+    shards.append({'name': 'reference-json', 'fn': 'shard_reference_json', 'args': {}})
     for i in range(2 if tier == 'quick' else 6):
         shards.append({'name': 'pipeline-%d' % i, 'fn': 'shard_pipeline', 'args': {'part': i}})
     return shards
@@ -275,3 +276,59 @@ def shard_many_tuples(sh):
     cols = list(data)
     verify(sh, cr, data, cols, 'label', 2, 10 ** 6, False, 'many-distinct-tuples(%d rows)' % n, sample=False)
     sh.notes['rows'] = n
+
+
+def shard_reference_json(sh):
+    """Interaction features requested through a reference-model JSON (any number of constituents, independent of --interaction_order)."""
+    import json
+    import os
+    import pandas as pd
+    cr = pipe.fresh_core_ranking()
+    rng = sh.rng('refjson')
+    for t in range(40 if sh.tier == 'quick' else 200):
+        cls = rng.choice(sorted(ADVERSARIAL))
+        alpha = ADVERSARIAL[cls]
+        nbase = rng.randint(3, 6)
+        n = rng.choice([6, 40, 200])
+        cols = ['f%d' % i for i in range(nbase)] + ['label']
+        data = {c: [rng.choice(alpha) for _ in range(n)] for c in cols[:-1]}
+        data['label'] = [rng.choice(['0', '1']) for _ in range(n)]
+        feats = []
+        for _ in range(rng.randint(1, 4)):
+            k = rng.randint(2, min(4, nbase))
+            combo = rng.sample(cols[:-1], k)
+            feats.append(','.join(combo))
+        feats += [rng.choice(cols[:-1])]           # a single feature: not a combined one
+        path = os.path.join(sh.scratch, 'ref-%d.json' % t)
+        with open(path, 'w') as f:
+            json.dump({'desc': {'features': feats, 'fields': []}}, f)
+        order = rng.choice([1, 1, 2, 3])
+        args = pipe.make_args(interaction_order=order, reference_model_JSON=path, combination_number_upper_bound=10 ** 6, heuristic='MI-numba-randomized')
+        df = pd.DataFrame(data, columns=cols)
+        snap = df.copy(deep=True)
+        ok, out = sh.call('column-count-and-names', 'compute_combined_features', cr.compute_combined_features, df, args, pipe.NullPbar())
+        if not ok:
+            continue
+        expected = {}
+        for ftr in feats:
+            parts = ftr.split(',')
+            if len(parts) > 1:
+                expected[' AND '.join(sorted(parts))] = tuple(sorted(parts))
+        new = list(out.columns[len(cols):])
+        sh.check('column-count-and-names', set(new) == set(expected) and list(out.columns[:len(cols)]) == cols, 'reference-json:interaction-columns!=requested-combined-features',
+                 lambda: {'requested': feats, 'new_columns': new, 'interaction_order': order})
+        sh.check('originals-untouched', df.equals(snap) and all(out[c].tolist() == data[c] for c in cols), 'original-columns-changed', lambda: {'columns': list(out.columns)})
+        for nm, combo in expected.items():
+            if nm not in out.columns:
+                continue
+            vals = out[nm].tolist()
+            tuples = list(zip(*[data[c] for c in combo]))
+            t2v, v2t, bad = {}, {}, None
+            for tp, v in zip(tuples, vals):
+                if t2v.setdefault(tp, v) != v:
+                    bad = ('same tuple, different values', tp, t2v[tp], v)
+                if v2t.setdefault(v, tp) != tp:
+                    bad = ('different tuples, same value', v2t[v], tp, v)
+            sh.check('equal-iff-constituents-equal', bad is None, 'reference-json:interaction-value-not-injective-in-constituents',
+                     lambda: {'column': nm, 'problem': bad, 'interaction_order': order, 'constituents': len(combo), 'rows': [list(r) for r in zip(*[data[c] for c in cols])][:20]})
+        sh.case(('reference-json', cls, order, core.h64(feats)), True, 'reference-json/order%d' % order, sample={'requested': feats, 'interaction_order': order, 'new_columns': new} if t % 10 == 0 else None)
